@@ -229,7 +229,9 @@ func convertShutdown(evs []verif.Event, w *hlib.NDJSON) int {
 	for _, e := range evs {
 		switch e.Ev {
 		case "HRestarted":
-			return n // the second lifetime starts here
+			return n // the last lifetime starts here
+		case "HMidRestart":
+			put(map[string]interface{}{"ev": "Reset"}) // an idle lifetime in between: its shutdown is held against the protocol too
 		case "TMapAdd", "TPumpStopped", "TClosed", "TDeleted":
 			put(map[string]interface{}{"ev": e.Ev, "t": S(e, "t")})
 		case "TExit":
